@@ -19,8 +19,9 @@ Clause(name, ok, detail) == ClauseAt(l, name, ok, detail)
 e == Trace[l]
 H == Trace[h]
 W == Trace[wh]
+\* the advertised offset is the one read from the live MPD fetched at the instant of the request (e.ato)
 SC == [N |-> H.N, dur |-> H.dur, vod0 |-> H.vod0, TS |-> H.TS, loopMS |-> H.loopMS,
-       tsbd |-> H.tsbd, ato |-> H.ato, snr |-> H.snr]
+       tsbd |-> H.tsbd, ato |-> e.ato, snr |-> H.snr]
 RC == [TS |-> H.repTS, loopMS |-> H.loopMS]       \* requested representation
 RCR == [TS |-> H.TS, loopMS |-> H.loopMS]         \* reference representation
 Cnt0 == [r200 |-> 0, r425 |-> 0, chunksTimed |-> 0, tight |-> 0, immediate |-> 0, same |-> 0, multi |-> 0, sized |-> 0]
@@ -65,8 +66,8 @@ Judge200 ==
              <<"segment_number", W.seq, [j \in 1..nC |-> <<chunks[j].seq, chunks[j].tfdtOff, chunks[j].dur, chunks[j].ns>>]>>)
    \* C09.size: "segment duration" = this segment's own duration as served in whole-segment mode; offset = advertised
    /\ \A j \in 1..nC :
-        Clause("C09.size", SizeOK(chunks[j], W.dur, H.ato, H.repTS, W.maxSamp, H.sampleSlack),
-               <<"chunk", j, "dur", chunks[j].dur, "segment_dur", W.dur, "ato_ms", H.ato, "TS", H.repTS, "max_sample", W.maxSamp,
+        Clause("C09.size", SizeOK(chunks[j], W.dur, e.ato, H.repTS, W.maxSamp, H.sampleSlack),
+               <<"chunk", j, "dur", chunks[j].dur, "segment_dur", W.dur, "ato_ms", e.ato, "TS", H.repTS, "max_sample", W.maxSamp,
                  "slack_samples", H.sampleSlack>>)
    \* C09.notearly: every chunk, every attempt (skipped when the wall clock was stepped during the request)
    /\ \A j \in 1..nC :
@@ -90,7 +91,8 @@ Judge200 ==
 Chunked ==
    /\ e.ev = "chunked"
    /\ Clause("trace.pairing", W.ev = "whole" /\ W.key = e.key /\ W.st = 200 /\ W.err = "", <<"whole-segment observation missing", e.key>>)
-   /\ LET ok == AllowedStatus(SC, RCR, e.k, e.i, e.now) IN
+   /\ Clause("trace.ato", e.ato >= 0 /\ e.ato < 100000, <<"advertised offset unusable", e.atoStr, e.mpdSt>>)
+   /\ LET ok == IF e.ato >= 0 /\ e.ato < 100000 THEN AllowedStatus(SC, RCR, e.k, e.i, e.now) ELSE {e.st} IN
       /\ Clause(IF 425 \in ok THEN "C09.early" ELSE "C09.served", e.st \in ok,
                 <<"status", e.st, "allowed", ok, "now_ms", e.now, "advertised_avail_u", AvailRefU(SC, RCR, e.k, e.i), "u_per_ms", PerMS(RCR), "at", e.at>>)
       /\ IF e.st = 200 /\ 200 \in ok /\ W.ev = "whole" /\ W.key = e.key /\ W.st = 200 /\ W.err = ""
